@@ -184,7 +184,7 @@ func (c *V2) Do(op Op) (out Outcome) {
 	}
 	switch op.Kind {
 	case OpPut:
-		in := &v2ddb.PutItemInput{TableName: aws.String(op.Table), Item: ItemToV2(op.Item), ConditionExpression: strp(op.Cond),
+		in := &v2ddb.PutItemInput{TableName: aws.String(op.Table), Item: ItemToV2(op.Item), ConditionExpression: condExpr(op),
 			ExpressionAttributeNames: op.Names, ExpressionAttributeValues: ItemToV2(op.Values)}
 		if op.RetCCF {
 			in.ReturnValuesOnConditionCheckFailure = v2types.ReturnValuesOnConditionCheckFailureAllOld
@@ -209,7 +209,7 @@ func (c *V2) Do(op Op) (out Outcome) {
 		return o
 	case OpUpdate:
 		in := &v2ddb.UpdateItemInput{TableName: aws.String(op.Table), Key: ItemToV2(op.Key), UpdateExpression: updExpr(op),
-			ConditionExpression: strp(op.Cond), ExpressionAttributeNames: op.Names, ExpressionAttributeValues: ItemToV2(op.Values)}
+			ConditionExpression: condExpr(op), ExpressionAttributeNames: op.Names, ExpressionAttributeValues: ItemToV2(op.Values)}
 		if op.RetCCF {
 			in.ReturnValuesOnConditionCheckFailure = v2types.ReturnValuesOnConditionCheckFailureAllOld
 		}
@@ -224,7 +224,7 @@ func (c *V2) Do(op Op) (out Outcome) {
 		}
 		return o
 	case OpDelete:
-		in := &v2ddb.DeleteItemInput{TableName: aws.String(op.Table), Key: ItemToV2(op.Key), ConditionExpression: strp(op.Cond),
+		in := &v2ddb.DeleteItemInput{TableName: aws.String(op.Table), Key: ItemToV2(op.Key), ConditionExpression: condExpr(op),
 			ExpressionAttributeNames: op.Names, ExpressionAttributeValues: ItemToV2(op.Values)}
 		if op.RetOld {
 			in.ReturnValues = v2types.ReturnValueAllOld
